@@ -149,6 +149,14 @@ where
                 }
             } else if x.bytes == y.bytes {
                 fail(rec, "output_ignores_error_seed", at.clone(), json!({}));
+            } else if r == Routine::GlwePk {
+                // Public-key encryption: same plaintext, key and ephemeral stream, two error streams. u * pk cancels in the
+                // difference of the two ciphertexts, which must therefore be, column by column, the difference of the
+                // two error vectors the sampler model R8 draws from the two streams (one block of N draws per column;
+                // the order of the columns is left free), sitting on the limb that holds the declared precision.
+                if let Some(why) = pk_error_differential(c, x, y, e) {
+                    fail(rec, "pk_error_differs_from_sampler_model", at.clone(), json!({"why": why}));
+                }
             }
         }
         if a == 0 {
@@ -161,6 +169,56 @@ where
             }
         }
     }
+}
+
+/// see the call site; `x` was built with error stream `e0 + 8`, `y` with `e0 + 9`
+fn pk_error_differential(c: &Case, x: &Obj, y: &Obj, e0: usize) -> Option<String> {
+    let sh = &c.shape;
+    let (n, b, size, cols) = (sh.n, sh.b, sh.size(), sh.rank + 1);
+    let noise = sh.noise();
+    let (limb, _) = noise_limb_bound(&noise, b);
+    let bits = size * b;
+    let (cx, cy) = (x.cells.first()?, y.cells.first()?);
+    // torus difference of column `col` (0 = body), scaled by 2^bits, centred
+    let col_diff = |col: usize| -> Vec<IBig> {
+        (0..n)
+            .map(|i| {
+                let mut acc = IBig::from(0);
+                for j in 0..size {
+                    let (vx, vy) = if col == 0 {
+                        (cx.body[j * n + i], cy.body[j * n + i])
+                    } else {
+                        (cx.mask[((col - 1) * size + j) * n + i], cy.mask[((col - 1) * size + j) * n + i])
+                    };
+                    acc += IBig::from(vx as i128 - vy as i128) << (bits - (j + 1) * b);
+                }
+                torus::centered_mod_pow2(&acc, bits)
+            })
+            .collect()
+    };
+    let m1 = model_errors(error_seed(e0 + 8), &noise, b, cols * n);
+    let m2 = model_errors(error_seed(e0 + 9), &noise, b, cols * n);
+    let sh_bits = bits - (limb + 1) * b;
+    // (the difference lives on the torus: for tiny precisions it wraps modulo 2^bits)
+    let block = |k: usize| -> Vec<IBig> {
+        (0..n).map(|i| torus::centered_mod_pow2(&(IBig::from(m1[k * n + i] as i128 - m2[k * n + i] as i128) << sh_bits), bits)).collect()
+    };
+    let blocks: Vec<Vec<IBig>> = (0..cols).map(block).collect();
+    let mut used = vec![false; cols];
+    for col in 0..cols {
+        let d = col_diff(col);
+        match (0..cols).find(|&k| !used[k] && blocks[k] == d) {
+            Some(k) => used[k] = true,
+            None => {
+                let units: Vec<String> = d.iter().take(4).map(|v| (v >> sh_bits).to_string()).collect();
+                let want: Vec<String> = blocks[col].iter().take(4).map(|v| (v >> sh_bits).to_string()).collect();
+                return Some(format!(
+                    "column {col}: difference of the two ciphertexts (first coefficients, in units of limb {limb}: {units:?}) is not the difference of any block of model errors (block {col}: {want:?})"
+                ));
+            }
+        }
+    }
+    None
 }
 
 fn first_mask_diff(x: &Obj, y: &Obj) -> Option<Value> {
